@@ -136,6 +136,9 @@ def work_generated(ctx, seed):
     rng = random.Random(seed)
     from basis_set_exchange import writers
     b = gen.gen_basis(rng, ecp_prob=0.5, ecp_only_prob=0.1, cart=rng.random() < 0.2)
+    if seed % 5 == 1:
+        # shapes the store has few of: unsorted / fused / shared-exponent shells (valid input, see vlib/gen.py)
+        b = rng.choice([f for f in gen.PATHOLOGICAL if f not in (gen.patho_dup_function, gen.patho_contraction_on_free)])(rng)
     if seed % 3 == 0:
         # an exponent with very many integer digits (the -J / ANO-RCC style steep functions): fixed-width fields overflow
         shs = [sh for el in b['elements'].values() for sh in el.get('electron_shells', [])]
